@@ -188,6 +188,12 @@ func main() {
 	if *workersFlag > 0 {
 		workers = *workersFlag
 	}
+	var knownList []string
+	for _, k := range loadFindings() {
+		if k.Property == prop && k.Status == "known" {
+			knownList = append(knownList, k.Rule)
+		}
+	}
 	replayTmp := filepath.Join(scratch, "replays")
 	os.MkdirAll(replayTmp, 0o755)
 	sums := make([]*summary, workers)
@@ -199,6 +205,9 @@ func main() {
 			defer wg.Done()
 			a := []string{"-prop", prop, "-seed", strconv.FormatUint(seed, 10), "-worker", strconv.Itoa(w), "-tier", *tier,
 				"-budget", budget.String(), "-replaydir", replayTmp}
+			if len(knownList) > 0 {
+				a = append(a, "-known", strings.Join(knownList, ","))
+			}
 			a = append(a, cfg.ExtraArgs...)
 			cmd := exec.Command(bin, a...)
 			cmd.Env = append(os.Environ(), "GOMAXPROCS=2", "VERIF_SCRATCH="+scratch)
